@@ -6,12 +6,14 @@ open OtelVerif OtelVerif.Line OtelVerif.C11 OtelVerif.Gen
 namespace OtelVerif.Drivers.C11
 
 structure RS where
+  race : Bool := false   -- `mode=race`: nobody reports OK explicitly, so every OK must directly follow Starting
   rep : Reporter := {}
   implEvents : List (Inst × St) := []   -- reversed
   bad : Option String := none
 
 def repHandler : Handler RS where
   init := {}
+  onCase := fun s toks => { s with race := toks.contains "mode=race" }
   onOp := fun s toks =>
     match toks with
     | ["rep", i, st] =>
@@ -39,6 +41,10 @@ def repHandler : Handler RS where
     let insts := (evs.map (·.1)).eraseDups
     let badInst := insts.find? (fun i => !(isPath .none (evs.filterMap (projEvB i))))
     let badDoc := insts.find? (fun i => !(docPathB .none (evs.filterMap (projEvB i))))
+    let badOk := if s.race then insts.find? (fun i => !(okPred .none (evs.filterMap (projEvB i)))) else Option.none
+    match badOk with
+    | some i => [s!"prop path=FAIL sig=C11/reporter/auto-ok-not-from-starting-under-race instance={i} events={(evs.filterMap (projEvB i)).map St.toNat}"]
+    | Option.none =>
     match s.bad, badDoc, badInst with
     | some b, _, _ => [s!"prop path=FAIL sig=C11/reporter/unparsable {b}"]
     | Option.none, some i, _ => [s!"prop path=FAIL sig=C11/reporter/violates-documented-machine instance={i} events={(evs.filterMap (projEvB i)).map St.toNat}"]
